@@ -83,14 +83,14 @@ def run(ctx):
     if not ctx.quick:
         tr = ctx.path("small.ndjson")
         ctx.run_bin("c10", ["small", "--out", tr])
-        judge(ctx, "small", tr, 1, acc)
+        poslib.stage(ctx, judge, ctx, "small", tr, 1, acc)
     # 3. random configurations / markets at Unit = 100 (both cap orderings)
     n = 2500 if ctx.quick else 40000
     tr = ctx.path("random.ndjson")
     ctx.run_bin("c10", ["random", "--seed", ctx.seed, "--n", n, "--decimals", 2, "--out", tr])
-    judge(ctx, "random", tr, 2, acc)
+    poslib.stage(ctx, judge, ctx, "random", tr, 2, acc)
 
-    if acc["round_trips"] == 0:
+    if acc["round_trips"] == 0 and not ctx.violations:
         raise vlib.ToolError("vacuity: no completed round trip in the validated traces")
     ctx.assumptions += [
         "max_positive_position_impact_factor <= max_negative_position_impact_factor is a governance convention, not a "
